@@ -102,8 +102,10 @@ namespace awkward {
 
   int64_t
   RecordArrayBuilder::field_index() {
-    return (field_index_ < contents_size_ - 1) ?
-      field_index_++ : (field_index_ = 0);
+    // the field that the next value belongs to; then move on (round robin)
+    int64_t out = field_index_;
+    field_index_ = (field_index_ < contents_size_ - 1) ? field_index_ + 1 : 0;
+    return out;
   }
 
   void
